@@ -8,7 +8,7 @@ ID = 'C04'
 HARNESS_BIN = 'c04'
 RUN_MODULE = 'Run.C04'
 COQ_EXTRA = []
-THEOREMS = ['C04_lookup_sound', 'C04_record_sound', 'C04_scan_no_false_negative', 'C04_digest_chunk_independent',
+THEOREMS_PLANNED = ['C04_lookup_sound', 'C04_record_sound', 'C04_scan_no_false_negative', 'C04_digest_chunk_independent',
             'C04_scan_exact_refuted', 'C04_scan_exact_regular', 'C04_mode_equivalence']
 ASSUMPTIONS = [
     'BLAKE3 is modelled as an injective function H on file contents and an injective function HT on the '
@@ -211,8 +211,8 @@ CONTENTS = [
     b'// __DATE__\nint a;\n', b'// __DATE__\nint b;\n', b'// __DATA__\nint a;\n', b'// __TIME__\nint a;\n',
     b'// __TIMESTAMP__ a\n', b'// __TIMESTAMP__ b\n', b'// __TIMESTAMQ__ a\n',
     b'__DATE__ __TIMESTAMP__ 1', b'__DATE__ __TIMESTAMP__ 2', b'__DATA__ __TIMESTAMP__ 1',
-    b'#define LONG_HEADER_OF_FORTY_BYTES_____ 1\n', b'#define LONG_HEADER_OF_FORTY_BYTES_____ 2\n',   # 40 = empty tmpfs directory
-    b'#define HEADER_WITH_EXACTLY_SIXTY_BYTES_IN_IT__ __DATE__ 1\n\n\n\n\n',                               # 60 = directory with one entry
+    b'#define LONG_HEADER_OF_FORTY_BYTES___ 1\n', b'#define LONG_HEADER_OF_FORTY_BYTES___ 2\n',   # 40 = empty tmpfs directory
+    b'#define HEADER_WITH_EXACTLY_SIXTY_BYTES_IN_IT__ __DATE__ 1\n\n',                               # 60 = directory with one entry
 ]
 assert len(CONTENTS[-3]) == 40 and len(CONTENTS[-1]) == 60, (len(CONTENTS[-3]), len(CONTENTS[-1]))
 BY_LEN = {}
